@@ -16,6 +16,8 @@ pub fn streams() -> Vec<Stream> {
     vec![
         Stream { name: "c15_hex", gen: gen_hex, run: run_hex },
         Stream { name: "c15_ts", gen: gen_ts, run: run_ts },
+        Stream { name: "c15_path", gen: gen_path, run: run_path },
+        Stream { name: "c15_kind", gen: gen_kind, run: run_kind },
     ]
 }
 
@@ -979,6 +981,334 @@ fn gen_ts(rng: &mut Rng, tier: Tier, n: usize) -> Vec<String> {
                 push_parse(&mut out, &s);
             }
         }
+    }
+    out
+}
+
+// ------------------------------------------------------------------ c15_path
+
+/// The property evaluated without the implementation: non-empty segments joined by exactly `::`; every char
+/// XID_Continue (XID_Start ⊂ XID_Continue); a later segment starts with XID_Start (the first segment may start
+/// with any XID_Continue char — the leniency the code has).
+fn spec_valid_path(path: &str) -> bool {
+    let mut first = true;
+    for seg in path.split("::") {
+        let mut chars = seg.chars();
+        match chars.next() {
+            None => return false,
+            Some(c) => {
+                let ok = if first { unicode_ident::is_xid_start(c) || unicode_ident::is_xid_continue(c) } else { unicode_ident::is_xid_start(c) };
+                if !ok {
+                    return false;
+                }
+            }
+        }
+        if !chars.all(|c| unicode_ident::is_xid_start(c) || unicode_ident::is_xid_continue(c)) {
+            return false;
+        }
+        first = false;
+    }
+    true
+}
+
+fn run_path(line: &str) -> String {
+    (|| -> Option<String> {
+        let s = Sexp::parse(line)?;
+        let (tag, a) = s.as_tagged()?;
+        Some(match tag {
+            "valid" => {
+                let mut path = String::new();
+                for it in a {
+                    let t = it.as_list()?;
+                    if t.len() != 3 {
+                        return None;
+                    }
+                    let c = char::from_u32(u32::try_from(t[0].as_u64()?).ok()?)?;
+                    // the classes in the case line must be the real ones
+                    if t[1].as_bool()? != unicode_ident::is_xid_start(c) || t[2].as_bool()? != unicode_ident::is_xid_continue(c) {
+                        return None;
+                    }
+                    path.push(c);
+                }
+                let mut v = Verdict::new();
+                let as_out = |b: bool| if b { Out::Ok(()) } else { Out::Err };
+                let r = catch(|| emit::path::is_valid_path(&path));
+                v.add("is_valid_path", r.map(as_out).unwrap_or(Out::Panic));
+                v.add("Path::new_ref", catch(|| emit::Path::new_ref(&path).is_ok()).map(as_out).unwrap_or(Out::Panic));
+                v.add("Path::new_owned", catch(|| emit::Path::new_owned(path.clone()).is_ok()).map(as_out).unwrap_or(Out::Panic));
+                v.add(
+                    "Path::new_cow_ref",
+                    catch(|| emit::Path::new_cow_ref(std::borrow::Cow::Borrowed(&path)).is_ok()).map(as_out).unwrap_or(Out::Panic),
+                );
+                v.add("cast(str)", catch(|| Value::from(&*path).cast::<emit::Path>().is_some()).map(as_out).unwrap_or(Out::Panic));
+                if let Some(got) = r {
+                    if got != spec_valid_path(&path) {
+                        v.fail(format!("is_valid_path={}-but-grammar-says-{}", got, !got));
+                    }
+                    if got {
+                        // a valid path splits into non-empty segments and is its own child
+                        let p = emit::Path::new_ref_raw(&path);
+                        if p.segments().any(|s| s.get().is_empty() || s.get().contains(':')) {
+                            v.fail("valid-path-has-bad-segment");
+                        }
+                        if !p.is_child_of(&p) {
+                            v.fail("not-child-of-itself");
+                        }
+                    }
+                }
+                let out = v.finish(|_| String::new());
+                // render as true / false like the model
+                out.replacen("ok()", "true", 1).replacen("err", "false", 1)
+            }
+            "child" => {
+                if a.len() != 2 {
+                    return None;
+                }
+                let c = a[0].as_string()?;
+                let p = a[1].as_string()?;
+                let r = match catch(|| emit::Path::new_ref_raw(&c).is_child_of(&emit::Path::new_ref_raw(&p))) {
+                    Some(r) => r,
+                    None => return Some("panic\tFAIL:is_child_of-panicked".into()),
+                };
+                let spec = c == p || c.strip_prefix(p.as_str()).map(|rest| rest.starts_with("::")).unwrap_or(false);
+                if r == spec {
+                    format!("{}", r)
+                } else {
+                    format!("{}\tFAIL:is_child_of={}-but-prefix-rule-says-{}", r, r, spec)
+                }
+            }
+            _ => return None,
+        })
+    })()
+    .unwrap_or_else(|| "bad-case".into())
+}
+
+fn valid_case(path: &str) -> String {
+    let items = path
+        .chars()
+        .map(|c| {
+            Sexp::list(vec![
+                Sexp::num(c as u32),
+                Sexp::bool(unicode_ident::is_xid_start(c)),
+                Sexp::bool(unicode_ident::is_xid_continue(c)),
+            ])
+        })
+        .collect();
+    Sexp::tagged("valid", items).to_string()
+}
+
+/// chars by class: start, continue-only, neither, ':'
+const PATH_START: &[char] = &['a', 'b', 'Z', 'é', 'ß', 'λ', '漢', 'ª', 'ⅷ', '𝒳'];
+const PATH_CONT: &[char] = &['0', '1', '9', '_', '\u{0301}', '٣', '·', '\u{200d}', '᠐'];
+const PATH_OTHER: &[char] = &[' ', '-', '.', '*', '{', '}', ',', '/', '\u{0}', '🦀', '€', ';', '：', '\u{2028}'];
+
+fn random_segment(rng: &mut Rng, valid_start: bool) -> String {
+    let mut s = String::new();
+    if valid_start {
+        s.push(*rng.pick(PATH_START));
+    } else {
+        s.push(*rng.pick(PATH_CONT));
+    }
+    for _ in 0..rng.below(4) {
+        s.push(if rng.bool() { *rng.pick(PATH_START) } else { *rng.pick(PATH_CONT) });
+    }
+    s
+}
+
+fn random_valid_path(rng: &mut Rng) -> String {
+    let n = 1 + rng.below(4);
+    (0..n).map(|_| random_segment(rng, true)).collect::<Vec<_>>().join("::")
+}
+
+fn gen_path(rng: &mut Rng, tier: Tier, n: usize) -> Vec<String> {
+    let mut out = Vec::new();
+    for p in ["", "a", "a::b", "::", "::a", "a::", "a:b", "a::::b", "a::{b, c}", "a::*", "a:b:c", "a::1b", "a:b::c", "a:::b",
+        ":", "a:", "1a", "_a", "a::_b", "a::b1", "a::b_", "1", "a::1", "a:1:b", "é::ß", "a :: b", "a::b::", "a::b:", ":a::b", "a:: b",
+        "a::b c", "a\u{301}::b", "\u{301}a", "a::\u{301}b", "crate::module::submodule"] {
+        out.push(valid_case(p));
+    }
+    for (c, p) in [("a", "a"), ("a::b", "a"), ("aa", "a"), ("b", "a"), ("a", "a::b"), ("a::b", "a::"), ("a:b", "a"), ("a::b", ""),
+        ("", ""), ("", "a"), ("aé", "a"), ("é::b", "é"), ("éa", "\u{c3}"), ("a::b::c", "a::b"), ("a::bc", "a::b"), ("a:", "a"), ("a::", "a")] {
+        out.push(Sexp::tagged("child", vec![Sexp::str(c), Sexp::str(p)]).to_string());
+    }
+    // exhaustive short strings over a class alphabet
+    let alpha: &[&str] = &["a", "1", ":", "-", "é", "\u{301}"];
+    let maxlen = if tier == Tier::Thorough { 7 } else { 5 };
+    for len in 0..=maxlen {
+        let total = (alpha.len() as u64).pow(len as u32);
+        for i in 0..total {
+            if out.len() >= n * 2 / 3 && tier == Tier::Quick {
+                break;
+            }
+            out.push(valid_case(&nth_string(alpha, len, i)));
+        }
+    }
+    while out.len() < n {
+        match rng.below(10) {
+            0 | 1 => out.push(valid_case(&random_valid_path(rng))),
+            2 | 3 | 4 => {
+                // near-miss of a valid path: single-point mutation
+                let p: Vec<char> = random_valid_path(rng).chars().collect();
+                let mut q = p.clone();
+                let i = rng.usize(q.len() + 1);
+                let ins = match rng.below(5) {
+                    0 => ':',
+                    1 => *rng.pick(PATH_CONT),
+                    2 => *rng.pick(PATH_OTHER),
+                    _ => *rng.pick(PATH_START),
+                };
+                match rng.below(3) {
+                    0 if i < q.len() => {
+                        q.remove(i);
+                    }
+                    1 if i < q.len() => q[i] = ins,
+                    _ => q.insert(i, ins),
+                }
+                out.push(valid_case(&q.into_iter().collect::<String>()));
+            }
+            5 => {
+                // segments joined by 1..3 colons, segments starting with start / continue chars
+                let k = 1 + rng.below(4);
+                let mut s = String::new();
+                for j in 0..k {
+                    if j > 0 {
+                        s.push_str(&":".repeat(1 + rng.usize(3)));
+                    }
+                    let start = rng.chance(3, 4);
+                    s.push_str(&random_segment(rng, start));
+                }
+                out.push(valid_case(&s));
+            }
+            6 => {
+                let len = rng.usize(12);
+                let s: String = (0..len)
+                    .map(|_| match rng.below(8) {
+                        0 | 1 => ':',
+                        2 => *rng.pick(PATH_OTHER),
+                        3 => *rng.pick(PATH_CONT),
+                        4 => char::from_u32(rng.range(0x20, 0x2fff) as u32).unwrap_or('a'),
+                        _ => *rng.pick(PATH_START),
+                    })
+                    .collect();
+                out.push(valid_case(&s));
+            }
+            _ => {
+                // is_child_of: related pairs
+                let p = random_valid_path(rng);
+                let c = match rng.below(7) {
+                    0 => p.clone(),
+                    1 => format!("{}::{}", p, random_segment(rng, true)),
+                    2 => format!("{}{}", p, random_segment(rng, true)),
+                    3 => format!("{}:{}", p, random_segment(rng, true)),
+                    4 => {
+                        let mut cs: Vec<char> = p.chars().collect();
+                        cs.pop();
+                        cs.into_iter().collect()
+                    }
+                    5 => random_valid_path(rng),
+                    _ => format!("{}::", p),
+                };
+                // sometimes cut the parent inside a multi-byte char's neighbourhood by swapping roles
+                if rng.chance(1, 6) {
+                    out.push(Sexp::tagged("child", vec![Sexp::str(&p), Sexp::str(&c)]).to_string());
+                } else {
+                    out.push(Sexp::tagged("child", vec![Sexp::str(&c), Sexp::str(&p)]).to_string());
+                }
+            }
+        }
+    }
+    out
+}
+
+// ------------------------------------------------------------------ c15_kind
+
+fn show_kind(k: &emit::Kind) -> String {
+    k.to_string()
+}
+
+fn run_kind(line: &str) -> String {
+    (|| -> Option<String> {
+        let s = Sexp::parse(line)?;
+        let (tag, a) = s.as_tagged()?;
+        if a.len() != 1 {
+            return None;
+        }
+        Some(match tag {
+            "kind" => {
+                let text = a[0].as_string()?;
+                let text = text.as_str();
+                let mut v: Verdict<emit::Kind> = Verdict::new();
+                v.add("from_str", Out::of_result(|| text.parse::<emit::Kind>()));
+                v.add("try_from_str", Out::of_result(|| emit::Kind::try_from_str(text)));
+                v.add("cast(str)", Out::of_option(|| Value::from(text).cast::<emit::Kind>()));
+                let d = Disp(text);
+                v.add("cast(display)", Out::of_option(|| Value::from_display(&d).cast::<emit::Kind>()));
+                let out = v.finish(show_kind);
+                // render like the model: span | metric | none
+                if let Some(rest) = out.strip_prefix("ok(") {
+                    rest.replacen(')', "", 1)
+                } else if let Some(rest) = out.strip_prefix("err") {
+                    format!("none{}", rest)
+                } else {
+                    out
+                }
+            }
+            "fmt-kind" => {
+                let k = match a[0].as_atom()? {
+                    "span" => emit::Kind::Span,
+                    "metric" => emit::Kind::Metric,
+                    _ => return None,
+                };
+                let text = k.to_string();
+                let mut fails = Vec::new();
+                if text.parse::<emit::Kind>().ok() != Some(k) {
+                    fails.push("roundtrip".to_string());
+                }
+                if Value::from_any(&k).cast::<emit::Kind>() != Some(k) {
+                    fails.push("typed-cast".to_string());
+                }
+                if format!("{:?}", k) != format!("\"{}\"", text) {
+                    fails.push("debug-differs".to_string());
+                }
+                with_fail(Sexp::str(&text).to_string(), fails)
+            }
+            _ => return None,
+        })
+    })()
+    .unwrap_or_else(|| "bad-case".into())
+}
+
+fn gen_kind(rng: &mut Rng, _tier: Tier, n: usize) -> Vec<String> {
+    let mut out = vec!["(fmt-kind span)".to_string(), "(fmt-kind metric)".to_string()];
+    let kind = |s: &str| Sexp::tagged("kind", vec![Sexp::str(s)]).to_string();
+    for w in ["span", "metric", "SPAN", "Metric", " span ", "\tmetric\n", "", " ", "spa", "spans", "metrics", "s pan", "ſpan", "spaN",
+        "\u{a0}span\u{2003}", "span\u{0}", "ＳＰＡＮ", "METRİC", "metrıc", "\u{212a}ind", "log", "event"] {
+        out.push(kind(w));
+    }
+    const PADS: [&str; 9] = ["", "", "", " ", "\t", "\u{a0}", "\u{2003}", "\n ", "\u{85}"];
+    const ALPHA: &[&str] = &["s", "p", "a", "n", "S", "m", "e", "t", "r", "i", "c", "M", " ", "é", "ſ", "1"];
+    while out.len() < n {
+        let base = if rng.bool() { "span" } else { "metric" };
+        let text = match rng.below(6) {
+            0 => mixed_case(rng, base),
+            1 => {
+                let m = mixed_case(rng, base);
+                format!("{}{}{}", rng.pick(&PADS), m, rng.pick(&PADS))
+            }
+            2 | 3 => {
+                let m = mixed_case(rng, base);
+                near_miss(rng, &m, ALPHA)
+            }
+            4 => {
+                let m = near_miss(rng, base, ALPHA);
+                format!("{}{}{}", rng.pick(&PADS), m, rng.pick(&PADS))
+            }
+            _ => {
+                let len = rng.usize(9);
+                random_chars(rng, b"spanmetricSPANMETRIC ", len)
+            }
+        };
+        out.push(kind(&text));
     }
     out
 }
